@@ -18,6 +18,7 @@ Record scfg := {
   c_default_opts : list dhcp_opt }.
 
 Definition hold_ns : Z := Z.of_N gf_offer_hold_ns.
+Definition req_hold_ns : Z := Z.of_N gf_request_hold_ns.
 Definition arp_timeout : Z := Z.of_N gf_arp_timeout_ns.
 Definition arp_tries : Z := Z.of_N gf_arp_tries.
 
@@ -194,7 +195,7 @@ Definition accept_request (c : scfg) (t : table) (r : round) (src dst : N) (m : 
     | None => nak
     | Some lease =>
       if negb (lease =? desired) then nak else
-      let (okh, t1) := t_hold_client (c_db c) (r_t r) (Some lease) duid hold_ns t in
+      let (okh, t1) := t_hold_client (c_db c) (r_t r) (Some lease) duid req_hold_ns t in
       if negb okh then RRej 23 else
       let (free, cost) := probe_outcome (r_arp r) (d_chaddr m) lease in
       if negb free then
